@@ -88,7 +88,8 @@ PROPS = {
     'C11': P('proof', True,
              'Verus proves absence of panics (assert!/debug_assert!/expect), arithmetic overflow, out-of-bounds indexing, division by zero and non-termination for every verified '
              'function under wf alone (swap: under the documented index condition), for all N including 0 and all arguments including usize::MAX. '
-             'Kani repeats it per capacity and decides the must-panic direction by reachability.'),
+             'Kani repeats it per capacity and decides the must-panic direction by reachability. BOUNDED STAND-IN for the clause "a call that panics for one of these reasons leaves the buffer unchanged" '
+             '(needs the state after a panic, which neither verifier has): native execution of the real code, every layout x call x argument class for N <= 3/4, panic caught, buffer compared; labelled bounded.'),
     'C19': P('proof', True,
              'Verus proves all index arithmetic (add_mod, sub_mod and every caller) free of overflow/underflow/division by zero for every N <= usize::MAX, every start < N and every T '
              '(layout-agnostic, so zero-sized types are included). Destructor counts for a zero-sized type are checked by Kani per capacity.'),
